@@ -227,8 +227,16 @@ def run(repo, tier):
     res.oblige('D1', '_compute_mask returns input mask | non-finite mask', union_ok, nontrivial=True)
     if not union_ok:
         res.add(Finding('D1', f.fullname, 'mask union', f.loc, '_compute_mask must return the union of the input mask and the non-finite mask', {}))
-    from .common import run_nonfinite
+    from .common import run_nonfinite, run_late_update
     run_nonfinite(repo, res, {'photutils.profiles.core','photutils.profiles.radial_profile','photutils.profiles.curve_of_growth'})
+    from .common import run_scale_free
+    from ..forward import run_forward
+    PM = {'photutils.profiles.core', 'photutils.profiles.radial_profile', 'photutils.profiles.curve_of_growth'}
+    run_scale_free(repo, res, PM)
+    # method/subpixels reach the aperture masks: profiles are built from do_photometry/area_overlap of the apertures
+    run_forward(repo, res, PM | {'photutils.aperture.core'})
+    if run_late_update(repo, res, {'photutils.profiles.core'}) < 1:
+        raise AnalysisError('vanished anchor: mask merge in ProfileBase._compute_mask')
     res.floor('L1', 100)
     res.floor('SLOT', 12)
     res.floor('SIB', 4)
